@@ -1,7 +1,7 @@
 (* C04 — Parse yields a node or an error, never neither; Sentence means whole input.
    Only statements: each theorem repeats the full statement of a lemma proved elsewhere and is closed by [exact]. *)
 From Coq Require Import String List NArith ZArith Bool.
-From Parsley Require Import Obs Base Grammar Engine Spec Sound Complete Pump Top.
+From Parsley Require Import Obs Base Grammar Engine Spec Sound Complete Pump Top ExactSpec Exact TopProofs.
 Import ListNotations.
 Open Scope N_scope.
 
@@ -105,4 +105,141 @@ Theorem C04_sentence_complete_partial :
     t = TopNode [handle_result (sq root) (i_offset inp) [n0; NEnd (node_rpos n0)]] c.
 Proof. exact @Pump.C04_sentence_complete. Qed.
 Print Assumptions C04_sentence_complete_partial.
+
+(* EVALUATE CLAUSE (model: Top.evaluate = parsley.Evaluate on Engine.parse_top = parsley.Parse).  Evaluate returns exactly one of:
+   the value of the single tree Parse returned; Parse's error; an evaluation error; a panic, which is either the parser's own or an
+   interpreter's on the single tree; it runs out of fuel only if the parse does (EvaluateNode itself needs no fuel). *)
+Theorem C04_evaluate_outcomes :
+  forall (inp : input) (rules : list pexpr) (fuel : nat) (root : pexpr),
+  match evaluate inp rules fuel root with
+  | Ok (EvValue v) =>
+      exists (n : node) (c : ctx),
+        parse_top inp rules fuel root = Ok (TopNode [n] c) /\ eval_node n = Ok (inl v)
+  | Ok (EvParseErr e) => exists c : ctx, parse_top inp rules fuel root = Ok (TopErr e c)
+  | Ok (EvEvalErr e) =>
+      exists (n : node) (ns : list node) (c : ctx),
+        parse_top inp rules fuel root = Ok (TopNode (n :: ns) c) /\
+        eval_result (n :: ns) = Ok (inr e)
+  | Panic =>
+      parse_top inp rules fuel root = Panic \/
+      (exists (n : node) (c : ctx),
+         parse_top inp rules fuel root = Ok (TopNode [n] c) /\ eval_node n = Panic)
+  | OutOfFuel => parse_top inp rules fuel root = OutOfFuel
+  end.
+Proof. exact @TopProofs.evaluate_outcomes. Qed.
+Print Assumptions C04_evaluate_outcomes.
+
+(* Evaluate never evaluates a missing node (the nil dereference of the original code, defect D3): a panic of Evaluate is the
+   parser's own panic or comes from an interpreter applied to the NON-EMPTY result of Parse (from C04_xor). *)
+Theorem C04_evaluate_never_nil :
+  forall (inp : input) (rules : list pexpr) (fuel : nat) (root : pexpr),
+  evaluate inp rules fuel root = Panic ->
+  parse_top inp rules fuel root = Panic \/
+  (exists (n : node) (ns : list node) (c : ctx),
+     parse_top inp rules fuel root = Ok (TopNode (n :: ns) c) /\ eval_result (n :: ns) = Panic).
+Proof. exact @TopProofs.evaluate_never_nil. Qed.
+Print Assumptions C04_evaluate_never_nil.
+
+(* For a well-formed grammar (every reference points to a rule) the parser never panics, so a panic of Evaluate always comes from
+   an interpreter applied to the single tree that Parse returned. *)
+Theorem C04_evaluate_panic_is_interpreter :
+  forall (inp : input) (rules : list pexpr) (site : N -> option pexpr)
+    (fuel : nat) (root : pexpr),
+  wf_rules rules site ->
+  wf rules site root ->
+  evaluate inp rules fuel root = Panic ->
+  exists (n : node) (c : ctx),
+    parse_top inp rules fuel root = Ok (TopNode [n] c) /\ eval_node n = Panic.
+Proof. exact @TopProofs.evaluate_panic_is_interpreter. Qed.
+Print Assumptions C04_evaluate_panic_is_interpreter.
+
+(* parsley.Parse (the model) never panics on a well-formed grammar: the engine's only panic site is a dangling rule reference. *)
+Theorem C04_parse_no_panic :
+  forall (inp : input) (rules : list pexpr) (site : N -> option pexpr),
+  wf_rules rules site ->
+  forall (fuel : nat) (root : pexpr),
+  wf rules site root -> parse_top inp rules fuel root <> Panic.
+Proof. exact @TopProofs.parse_top_no_panic. Qed.
+Print Assumptions C04_parse_no_panic.
+
+(* A tree in which every non-terminal carries Nil, Array, a user interpreter (modelled as: evaluate all children in order, first
+   error aborts, return the list of values) or Select(i) with i < its number of children evaluates to a value or an error: no panic. *)
+Theorem C04_interp_total_evaluates :
+  forall n : node, interp_total n = true -> exists r : value + perr, eval_node n = Ok r.
+Proof. exact @TopProofs.eval_total. Qed.
+Print Assumptions C04_interp_total_evaluates.
+
+(* If every rule body and the expression pass the decidable check interp_ok_expr ("an interpreter for every non-terminal": Nil, Array,
+   user, or Select(i) with i below the least number of children the sequence kind returns; a ReturnSingle SeqOf of one operand needs
+   none), the yield of EVERY valid derivation (all combinators, Sound.xvalid) has such an interpreter at every non-terminal. *)
+Theorem C04_grammar_interp_total :
+  forall (inp : input) (rules : list pexpr),
+  forallb interp_ok_expr rules = true ->
+  forall (e : pexpr) (pos : N) (d : xtree),
+  interp_ok_expr e = true -> xvalid inp rules e pos d -> interp_total (xyield inp d) = true.
+Proof. exact @TopProofs.xvalid_interp_total. Qed.
+Print Assumptions C04_grammar_interp_total.
+
+(* The same for the derivations of Spec.valid (the C01 fragment). *)
+Theorem C04_grammar_interp_total_frag :
+  forall (inp : input) (rules : list pexpr),
+  forallb interp_ok_expr rules = true ->
+  forall (e : pexpr) (pos : N) (d : dtree),
+  interp_ok_expr e = true -> valid inp rules e pos d -> interp_total (yield d) = true.
+Proof. exact @TopProofs.valid_interp_total. Qed.
+Print Assumptions C04_grammar_interp_total_frag.
+
+(* THE EVALUATE CLAUSE: for a well-formed grammar (as in C01_sound_all) whose rules and root pass interp_ok_expr, for every input and
+   every fuel, Evaluate returns a value, Parse's error or an evaluation error (or the parse itself ran out of fuel) - never a panic.
+   The hypotheses are needed: TopProofs.needs_interpreter, select_on_many_panics, select_on_seqtry_panics. *)
+Theorem C04_evaluate_total :
+  forall (inp : input) (rules : list pexpr) (site : N -> option pexpr)
+    (fuel : nat) (root : pexpr),
+  wf_rules rules site ->
+  wf rules site root ->
+  forallb interp_ok_expr rules = true ->
+  interp_ok_expr root = true ->
+  (exists v : value, evaluate inp rules fuel root = Ok (EvValue v)) \/
+  (exists e : perr, evaluate inp rules fuel root = Ok (EvParseErr e)) \/
+  (exists e : perr, evaluate inp rules fuel root = Ok (EvEvalErr e)) \/
+  evaluate inp rules fuel root = OutOfFuel /\ parse_top inp rules fuel root = OutOfFuel.
+Proof. exact @TopProofs.C04_evaluate_total. Qed.
+Print Assumptions C04_evaluate_total.
+
+(* The same with the Sentence root (Sentence binds Select(0) to SeqOf(root, End), which passes the check by itself). *)
+Theorem C04_evaluate_sentence_total :
+  forall (inp : input) (rules : list pexpr) (site : N -> option pexpr)
+    (fuel : nat) (root : pexpr),
+  wf_rules rules site ->
+  wf rules site root ->
+  forallb interp_ok_expr rules = true ->
+  interp_ok_expr root = true ->
+  (exists v : value, evaluate inp rules fuel (sentence root) = Ok (EvValue v)) \/
+  (exists e : perr, evaluate inp rules fuel (sentence root) = Ok (EvParseErr e)) \/
+  (exists e : perr, evaluate inp rules fuel (sentence root) = Ok (EvEvalErr e)) \/
+  evaluate inp rules fuel (sentence root) = OutOfFuel /\
+  parse_top inp rules fuel (sentence root) = OutOfFuel.
+Proof. exact @TopProofs.C04_evaluate_sentence_total. Qed.
+Print Assumptions C04_evaluate_sentence_total.
+
+(* Sentence over a stratified root: succeeds precisely when some exact derivation consumes the entire input. *)
+Theorem C04_sentence_exact :
+  forall (inp : input) (rules : list pexpr) (site : N -> option pexpr) (rl ml : N -> nat),
+  wf_rules rules site ->
+  (forall (k : N) (body : pexpr), nth_N rules k = Some body -> endfree body = true) ->
+  rules_lev rl ml rules ->
+  forall (L : nat) (root : pexpr),
+  lev_ok rl ml L root = true ->
+  wf rules site root ->
+  endfree root = true ->
+  forall (fuel : nat) (t : top) (d : dtree),
+  parse_top inp rules fuel (sentence root) = Ok t ->
+  exact inp rules L root (i_offset inp) d ->
+  dend d = i_offset inp + i_len inp ->
+  exists (d0 : dtree) (c : ctx),
+    exact inp rules L root (i_offset inp) d0 /\
+    is_eof inp (dend d0) = true /\
+    t = TopNode [handle_result (sq root) (i_offset inp) [yield d0; NEnd (dend d0)]] c.
+Proof. exact @Exact.C04_sentence_exact. Qed.
+Print Assumptions C04_sentence_exact.
 
